@@ -28,6 +28,7 @@ var zzLog []zzEvent
 func zzReset() {
 	zzBehav = map[int]*zzBehaviour{}
 	zzLog = nil
+	zzSeen = map[int]ZZCfg{}
 }
 
 func zzResult(id int) *LintResult {
@@ -98,4 +99,103 @@ func zzNewOCSP(id int, name string, src LintSource) *OcspResponseLint {
 			zzLog = append(zzLog, zzEvent{"new", id, l})
 			return l
 		}}
+}
+
+// ---- configurable stubs (C11) ----
+
+type ZZCfg struct {
+	Rounds int
+	Skip   bool
+}
+
+type zzCfgCertLint struct {
+	ID  int
+	Cfg ZZCfg
+}
+
+func (l *zzCfgCertLint) Configure() interface{} {
+	zzLog = append(zzLog, zzEvent{"configure", l.ID, l})
+	return &l.Cfg
+}
+func (l *zzCfgCertLint) CheckApplies(c *x509.Certificate) bool { return true }
+func (l *zzCfgCertLint) Execute(c *x509.Certificate) *LintResult {
+	zzLog = append(zzLog, zzEvent{"execute", l.ID, l})
+	zzSeen[l.ID] = l.Cfg
+	return &LintResult{Status: Pass}
+}
+
+type zzCfgCRLLint struct {
+	ID  int
+	Cfg ZZCfg
+}
+
+func (l *zzCfgCRLLint) Configure() interface{} {
+	zzLog = append(zzLog, zzEvent{"configure", l.ID, l})
+	return &l.Cfg
+}
+func (l *zzCfgCRLLint) CheckApplies(c *x509.RevocationList) bool { return true }
+func (l *zzCfgCRLLint) Execute(c *x509.RevocationList) *LintResult {
+	zzLog = append(zzLog, zzEvent{"execute", l.ID, l})
+	zzSeen[l.ID] = l.Cfg
+	return &LintResult{Status: Pass}
+}
+
+type zzCfgOCSPLint struct {
+	ID  int
+	Cfg ZZCfg
+}
+
+func (l *zzCfgOCSPLint) Configure() interface{} {
+	zzLog = append(zzLog, zzEvent{"configure", l.ID, l})
+	return &l.Cfg
+}
+func (l *zzCfgOCSPLint) CheckApplies(c *ocsp.Response) bool { return true }
+func (l *zzCfgOCSPLint) Execute(c *ocsp.Response) *LintResult {
+	zzLog = append(zzLog, zzEvent{"execute", l.ID, l})
+	zzSeen[l.ID] = l.Cfg
+	return &LintResult{Status: Pass}
+}
+
+// zzSeen: the configuration each configurable stub saw when its body last ran.
+var zzSeen = map[int]ZZCfg{}
+
+var zzDefaultCfg = ZZCfg{Rounds: 100, Skip: false}
+
+// ZZAddConfigurable registers a configurable stub lint (defaults Rounds=100, Skip=false).
+func ZZAddConfigurable(r Registry, kind, id int, name string) {
+	ri := r.(*registryImpl)
+	var err error
+	md := LintMetadata{Name: name, Description: "configurable stub", Citation: "stub", Source: RFC5280}
+	switch kind {
+	case 0:
+		err = ri.registerCertificateLint(&CertificateLint{LintMetadata: md, Lint: func() CertificateLintInterface { return &zzCfgCertLint{ID: id, Cfg: zzDefaultCfg} }})
+	case 1:
+		err = ri.registerRevocationListLint(&RevocationListLint{LintMetadata: md, Lint: func() RevocationListLintInterface { return &zzCfgCRLLint{ID: id, Cfg: zzDefaultCfg} }})
+	default:
+		err = ri.registerOcspResponseLint(&OcspResponseLint{LintMetadata: md, Lint: func() OcspResponseLintInterface { return &zzCfgOCSPLint{ID: id, Cfg: zzDefaultCfg} }})
+	}
+	if err != nil {
+		panic("harness: stub registration failed: " + err.Error())
+	}
+}
+
+// ZZSeen reports the configuration the stub's body saw (ok=false: the body did not run).
+func ZZSeen(id int) (ZZCfg, bool) {
+	c, ok := zzSeen[id]
+	return c, ok
+}
+
+func ZZForget() {
+	zzSeen = map[int]ZZCfg{}
+	zzLog = nil
+}
+
+func ZZConfigured(id int) int {
+	n := 0
+	for _, e := range zzLog {
+		if e.What == "configure" && e.ID == id {
+			n++
+		}
+	}
+	return n
 }
